@@ -93,6 +93,9 @@ type Property struct {
 	NotCovered  []string
 	Rules       []*Rule
 	Trusted     []string
+	LevelText   string // MANIFEST level_claimed.text
+	Technique   string // MANIFEST technique
+	DesignRef   string
 }
 
 // RunRule executes a rule, converting Bail panics to an undecided obligation.
